@@ -22,37 +22,42 @@ Proof. rewrite u64_max_mod16. lia. Qed.
 
 Lemma cstep_no_panic s sz b : cstep s sz b <> Pan.
 Proof.
-  destruct s; cbn [cstep]; unfold lws_ext_cr; intro H.
+  destruct s; cbn [cstep]; unfold size_digit, lws_ext_cr; intro H.
   all: cstep_cases H; try discriminate H.
-  assert (n < 16) by (eapply hexval_lt16; eassumption).
-  pose proof (mul16_add_digit_fits sz n). lia.
+  all: assert (n < 16) by (eapply hexval_lt16; eassumption);
+       pose proof (mul16_add_digit_fits sz n); lia.
 Qed.
 
 Lemma cstep_never_pend s sz b : cstep s sz b <> Pend.
 Proof.
-  destruct s; cbn [cstep]; unfold lws_ext_cr; intro H; cstep_cases H; discriminate H.
+  destruct s; cbn [cstep]; unfold size_digit, lws_ext_cr; intro H; cstep_cases H; discriminate H.
 Qed.
 
 (* the size register stays a u64 *)
 Lemma cstep_size_bound s sz b s' sz' : sz <= u64_max -> cstep s sz b = Ok (s', sz') -> sz' <= u64_max.
 Proof.
-  intros Hb H. destruct s; cbn [cstep] in H; unfold lws_ext_cr in H; cstep_cases H;
+  intros Hb H. destruct s; cbn [cstep] in H; unfold size_digit, lws_ext_cr in H; cstep_cases H;
     try discriminate H; inversion H; subst; lia.
 Qed.
 
 (* a size line whose value reaches 2^64 is an error: the step that would exceed u64::MAX fails *)
-Lemma cstep_overflow_err sz b d : hexval b = Some d -> u64_max < sz * 16 + d -> cstep Size sz b = Err.
+Lemma cstep_overflow_err s sz b d : s = Size \/ s = SizeDigits ->
+  hexval b = Some d -> u64_max < sz * 16 + d -> cstep s sz b = Err.
 Proof.
-  intros Hh Ho. cbn [cstep]. rewrite Hh.
-  pose proof (hexval_lt16 _ _ Hh). pose proof (mul16_add_digit_fits sz d).
-  destruct (sz * 16 <=? u64_max) eqn:E; [|reflexivity]. lia.
+  intros Hs Hh Ho. destruct Hs; subst; cbn [cstep]; rewrite Hh; unfold size_digit;
+  pose proof (hexval_lt16 _ _ Hh); pose proof (mul16_add_digit_fits sz d);
+  (destruct (sz * 16 <=? u64_max) eqn:E; [|reflexivity]); lia.
 Qed.
+
+(* F3 repaired: a size line cannot start with anything but a hex digit *)
+Lemma cstep_size_needs_digit sz b : hexval b = None -> cstep Size sz b = Err.
+Proof. intro H. cbn [cstep]. rewrite H. reflexivity. Qed.
 
 (* ---- invariant ----------------------------------------------------------------------------- *)
 Lemma cstep_inv s sz b s' sz' : cstep s sz b = Ok (s', sz') -> inv s' sz'.
 Proof.
   intros H. unfold inv. intros ->.
-  destruct s; cbn [cstep] in H; unfold lws_ext_cr in H; cstep_cases H;
+  destruct s; cbn [cstep] in H; unfold size_digit, lws_ext_cr in H; cstep_cases H;
     try discriminate H; inversion H; subst; lia.
 Qed.
 
@@ -180,19 +185,35 @@ Qed.
 Lemma hexnum_cons a d ds : hexnum a (d :: ds) = hexnum (a * 16 + hexdig d) ds.
 Proof. reflexivity. Qed.
 
-Lemma bw_digits ds : forall sz r acc,
+Lemma bw_digits_rest ds : forall sz r acc,
   forallb is_hex ds = true -> hexnum sz ds <= u64_max ->
-  bw Size sz (ds ++ r) acc = bw Size (hexnum sz ds) r acc.
+  bw SizeDigits sz (ds ++ r) acc = bw SizeDigits (hexnum sz ds) r acc.
 Proof.
   induction ds as [|d ds IH]; intros sz r acc Hh Hb; [reflexivity|].
   cbn [forallb] in Hh. apply andb_true_iff in Hh as [Hd Hh].
   rewrite hexnum_cons in *.
   pose proof (hexnum_ge ds (sz * 16 + hexdig d)) as Hge.
-  cbn [app]. rewrite bw_ctl by reflexivity. cbn [cstep].
+  cbn [app]. rewrite bw_ctl by reflexivity. cbn [cstep]. unfold size_digit.
   unfold is_hex in Hd. unfold hexdig in *. destruct (hexval d) as [v|] eqn:Hv; [|discriminate].
   destruct (sz * 16 <=? u64_max) eqn:E1; [|lia].
   destruct (sz * 16 + v <=? u64_max) eqn:E2; [|lia].
   apply IH; assumption.
+Qed.
+
+(* 1*HEXDIG from the start of a size line *)
+Lemma bw_digits ds : forall sz r acc,
+  ds <> [] -> forallb is_hex ds = true -> hexnum sz ds <= u64_max ->
+  bw Size sz (ds ++ r) acc = bw SizeDigits (hexnum sz ds) r acc.
+Proof.
+  intros sz r acc Hne Hh Hb. destruct ds as [|d ds]; [congruence|].
+  cbn [forallb] in Hh. apply andb_true_iff in Hh as [Hd Hh].
+  rewrite hexnum_cons in *.
+  pose proof (hexnum_ge ds (sz * 16 + hexdig d)) as Hge.
+  cbn [app]. rewrite bw_ctl by reflexivity. cbn [cstep]. unfold size_digit.
+  unfold is_hex in Hd. unfold hexdig in *. destruct (hexval d) as [v|] eqn:Hv; [|discriminate].
+  destruct (sz * 16 <=? u64_max) eqn:E1; [|lia].
+  destruct (sz * 16 + v <=? u64_max) eqn:E2; [|lia].
+  apply bw_digits_rest; assumption.
 Qed.
 
 Lemma is_lws_not_hex b : is_lws b = true -> hexval b = None.
@@ -227,11 +248,11 @@ Qed.
 Lemma bw_line_tail lws ext sz r acc :
   forallb is_lws lws = true ->
   match ext with Some e => forallb ext_ok e = true | None => True end ->
-  bw Size sz (lws ++ (match ext with Some e => 59 :: e | None => [] end) ++ 13 :: r) acc
+  bw SizeDigits sz (lws ++ (match ext with Some e => 59 :: e | None => [] end) ++ 13 :: r) acc
   = bw SizeLf sz r acc.
 Proof.
   intros Hl He.
-  assert (Htail : forall s, s = Size \/ s = SizeLws ->
+  assert (Htail : forall s, s = SizeDigits \/ s = SizeLws ->
             bw s sz ((match ext with Some e => 59 :: e | None => [] end) ++ 13 :: r) acc = bw SizeLf sz r acc).
   { intros s Hs. destruct ext as [e|].
     - change ((59 :: e) ++ 13 :: r) with (59 :: (e ++ 13 :: r)).
